@@ -8,23 +8,32 @@ run the new code rather than returning values cached by the old one, and a still
 definition keeps returning its own values.  Unchanged code keeps its cache across sessions.
 
 Model: `JoblibModel.FuncCode` — one function identifier in one cache directory: the live function
-objects of the current process (each with its current source text), the per-process table
-`_FUNCTION_HASHES`, the on-disk `func_code.py` and the entries stored beside it, and
-`_check_previous_func_code` / `_write_func_code` / `clear` as the code has them.  What is compared
-on disk is the SOURCE TEXT only (the `# first line:` comment is stripped; the line number serves
-the collision warnings).  `step .fixed` is the code WITH fixes/F10-same-name-redefinition.diff,
-`step .old` the pinned tree.
+objects of the current process (each with its current code object), the `MemorizedFunc` wrappers
+(each with its cached source, `func_code_info`), the per-process tables `_FUNCTION_HASHES` /
+`_FUNC_CODE_WRITERS`, the on-disk `func_code.py` (missing / unreadable / readable-but-garbled / a
+source text) and the entries stored beside it; `_check_previous_func_code`, `_write_func_code`,
+`clear` as the code has them.  What is compared on disk is the SOURCE TEXT only, exactly (the
+`# first line:` comment is stripped; the line number serves the collision warnings).
+`Cfg.fixed` is the code WITH fixes/F10-same-name-redefinition.diff (committed) and
+fixes/F38-code-swap.diff; `⟨false, _⟩` is the tree before the F10 repair, `⟨true, false⟩` the tree
+before the F38 repair.
 
 Quantifier reached: EVERY history (any length) over {execute a `def`/`lambda` creating a new
-function object with any source text, swap a live object's code, call / `check_call_in_cache` a
-live object with any argument, `MemorizedFunc.clear`, `Memory.clear`, start a fresh process}, every
-number of live objects and versions, every value function `sem` (what each source text computes).
+function object with any source text; wrap a live function once more (`memory.cache(f)` again);
+assign ANY code object to a live function's `__code__` (swap, swap back, any number of times);
+call / `check_call_in_cache` any live wrapper with any argument; `MemorizedFunc.clear`;
+`Memory.clear`; TRUNCATE `func_code.py` at any point of the history (unreadable: cut inside the
+header or a multi-byte character; garbled: cut anywhere else); start a fresh process}, every
+number of live objects, wrappers and versions, every value function `sem`.
 Sessions are sequential.  Not in the model: two processes at once (C11), source texts that do not
-determine the behaviour (closures over different captured values, lambdas sharing a line — outside
-the domain of the property), dead function objects leaving `_FUNCTION_HASHES` (weak references).
+determine the behaviour (closures / defaults differing at equal text — outside the domain of the
+property), dead function objects leaving `_FUNCTION_HASHES` (weak references).
 
-For the pinned tree the first theorem is FALSE (F10, `old_F10_counterexample`); the repair is small
-and was made, so the full statement is proved for the repaired code.
+ONE fault is excluded (`NoDelete`): `func_code.py` DELETED while entries remain (an interrupted
+`clear`, or a user): the code then takes the "first use" branch, writes the current source and
+keeps the entries — they are served to the edited function (`deleted_func_code_counterexample`,
+a known finding: telling "first use" from "file lost" needs a listing the store API does not
+have, and wiping on first use would race with concurrent first callers).
 -/
 namespace C12
 open JoblibModel.FuncCode
@@ -33,131 +42,228 @@ open JoblibModel.FilterArgs (dget)
 variable {R : Type}
 
 /-- **Every call returns the value its own version computes.**  In every history run from an empty
-cache directory, every call of a live function object whose current source text is `k`, with
-argument `a`, returns `sem k a` — whether the call was served from the cache or executed, whatever
-other versions of the same-named function were defined, called, swapped or cleared before, in this
-process or in earlier ones (`Correct` at every step: `AllCorrect`). -/
-theorem value_from_own_version (sem : Src → Nat → R) (ops : List Op) :
-    AllCorrect .fixed sem (init : State R) ops :=
-  allCorrect_of_inv ops _ (inv_init sem)
+cache directory that never deletes `func_code.py`, every call through a live wrapper whose
+function's current code object has source `k`, with argument `a`, returns `sem k a` — whether the
+call was served from the cache or executed, whatever other versions of the same-named function were
+defined, called, swapped in and out, cleared, or whatever truncation `func_code.py` suffered before,
+in this process or in earlier ones (`Correct` at every step: `AllCorrect`). -/
+theorem value_from_own_version (sem : Src → Nat → R) (ops : List Op) (hnd : ∀ op ∈ ops, NoDelete op) :
+    AllCorrect Cfg.fixed sem (init : State R) ops :=
+  allCorrect_of_inv ops _ (inv_init sem) hnd
 
-/-- The same from any state the repaired code can have produced (the invariant `Inv`: entries hold
-values of the stored code, the recorded writer's code is the stored code). -/
+/-- The same from any state the repaired code can have produced (the invariant `Inv`). -/
 theorem value_from_own_version_from (sem : Src → Nat → R) (st : State R) (hi : Inv sem st)
-    (ops : List Op) : AllCorrect .fixed sem st ops :=
-  allCorrect_of_inv ops st hi
+    (ops : List Op) (hnd : ∀ op ∈ ops, NoDelete op) : AllCorrect Cfg.fixed sem st ops :=
+  allCorrect_of_inv ops st hi hnd
 
 /-- … and every reachable state has that invariant. -/
-theorem reachable_inv (sem : Src → Nat → R) (ops : List Op) :
-    Inv sem (exec .fixed sem (init : State R) ops) :=
-  inv_exec ops _ (inv_init sem)
+theorem reachable_inv (sem : Src → Nat → R) (ops : List Op) (hnd : ∀ op ∈ ops, NoDelete op) :
+    Inv sem (exec Cfg.fixed sem (init : State R) ops) :=
+  inv_exec ops _ (inv_init sem) hnd
 
 /-- **Unchanged code keeps its cache.**  Take any history `pre` and `mid` in which every definition
-and code swap uses the one source text `k` and nothing is cleared (`Quiet k`: any number of
-re-executions of the same `def`, fresh processes, calls and checks with any arguments).  If the
-function object `o` is called with `a` after `pre`, then after `mid` a call of ANY live function
-object `o'` (same process or a later one) with `a` is served from the cache: the body is not
-executed, the value is `sem k a`, and the cache directory is left exactly as it was. -/
-theorem unchanged_code_keeps_cache (sem : Src → Nat → R) (k : Src) (pre mid : List Op) (o o' : Obj)
-    (a : Nat) (n n' : Bool) (hpre : ∀ op ∈ pre, Quiet k op) (hmid : ∀ op ∈ mid, Quiet k op)
-    (hlive : dget o (exec .fixed sem (init : State R) pre).live = some (k, n))
-    (hlive' : dget o' (exec .fixed sem (init : State R) (pre ++ .call o a :: mid)).live = some (k, n')) :
-    step .fixed sem (exec .fixed sem (init : State R) (pre ++ .call o a :: mid)) (.call o' a) =
-      (.value (sem k a) false, exec .fixed sem (init : State R) (pre ++ .call o a :: mid)) := by
-  have hi0 := inv_exec (sem := sem) pre _ (inv_init sem)
+and every swapped-in code object has the one source text `k` and nothing is cleared or damaged
+(`Quiet k`: any number of re-executions of the same `def`, further wrappers, swaps between code
+objects of that text, fresh processes, calls and checks with any arguments).  If a wrapper `w` is
+called with `a` after `pre`, then after `mid` a call of ANY live wrapper `w'` (same process or a later
+one) with `a` is served from the cache: the body is not executed, the value is `sem k a`, and the
+stored code and entries are left exactly as they were. -/
+theorem unchanged_code_keeps_cache (sem : Src → Nat → R) (k : Src) (pre mid : List Op) (w w' : Nat)
+    (a : Nat) (hpre : ∀ op ∈ pre, Quiet k op) (hmid : ∀ op ∈ mid, Quiet k op)
+    (hlive : (lookup (exec Cfg.fixed sem (init : State R) pre) w).isSome)
+    (hlive' : (lookup (exec Cfg.fixed sem (init : State R) (pre ++ .call w a :: mid)) w').isSome) :
+    let st := exec Cfg.fixed sem (init : State R) (pre ++ .call w a :: mid)
+    (step Cfg.fixed sem st (.call w' a)).1 = .value (sem k a) false ∧
+      (step Cfg.fixed sem st (.call w' a)).2.entries = st.entries ∧
+      (step Cfg.fixed sem st (.call w' a)).2.code = st.code := by
+  intro st
+  have nd : ∀ {l : List Op}, (∀ op ∈ l, Quiet k op) → ∀ op ∈ l, NoDelete op :=
+    fun h op ho => quiet_noDelete (h op ho)
+  have hi0 := inv_exec (sem := sem) pre _ (inv_init sem) (nd hpre)
   obtain ⟨hs0, _⟩ := quiet_exec (sem := sem) pre _ (inv_init sem) (allSrc_init k) hpre
-  -- the call of `o` after `pre`
-  have hi1 := (step_spec hi0 (.call o a)).1
-  obtain ⟨hs1, _⟩ := quiet_step hi0 hs0 (op := .call o a) trivial
-  have hent : dget a (step .fixed sem (exec .fixed sem init pre) (.call o a)).2.entries
-      = some (sem k a) := by
-    obtain ⟨h1, h2, _, h4⟩ := isInCache_spec hi0 o k n a
-    simp only [step, hlive]
-    cases hr : (isInCache .fixed (exec .fixed sem init pre) o k n a).1 with
-    | some v =>
-      simp only
-      have := h4 v hr
-      subst this
-      unfold isInCache at hr
-      simp only at hr
-      split at hr
-      · exact hr
-      · cases hr
-    | none => simp only; exact JoblibModel.FilterArgs.dget_dset_self _ _ _
-  have hcode : (step .fixed sem (exec .fixed sem init pre) (.call o a)).2.code = some k := by
-    obtain ⟨_, h2, _, _⟩ := isInCache_spec hi0 o k n a
-    simp only [step, hlive]
-    cases hr : (isInCache .fixed (exec .fixed sem init pre) o k n a).1 <;> simp only <;> exact h2
-  -- `mid`
-  obtain ⟨hs2, keep⟩ := quiet_exec (sem := sem) mid _ hi1 hs1 hmid
-  have hex : exec .fixed sem (init : State R) (pre ++ .call o a :: mid) =
-      exec .fixed sem (step .fixed sem (exec .fixed sem init pre) (.call o a)).2 mid := by
-    rw [exec_append]; rfl
-  rw [hex] at hlive' ⊢
-  have hi2 := inv_exec (sem := sem) mid _ hi1
-  have hc2 : (exec .fixed sem (step .fixed sem (exec .fixed sem init pre) (.call o a)).2 mid).code
-      = some k := by
-    cases hc : (exec .fixed sem (step .fixed sem (exec .fixed sem init pre) (.call o a)).2 mid).code with
-    | some c => rw [hs2.2 c hc]
-    | none =>
-      have := keep a _ hent
-      rw [hi2.empty hc] at this
-      simp [dget] at this
-  exact call_hit hlive' hc2 (keep a _ hent)
+  -- the call of `w` after `pre`
+  have hi1 := (step_spec hi0 (.call w a) trivial).1
+  obtain ⟨hs1, _⟩ := quiet_step hi0 hs0 (op := .call w a) trivial
+  cases hl : lookup (exec Cfg.fixed sem init pre) w with
+  | none => rw [hl] at hlive; cases hlive
+  | some p =>
+    obtain ⟨o, cur, named, ic⟩ := p
+    have hk : cur.2 = k := hs0.1 o cur named (lookup_live hl)
+    have hent : dget a (step Cfg.fixed sem (exec Cfg.fixed sem init pre) (.call w a)).2.entries
+        = some (sem k a) := by
+      have hc := (step_spec hi0 (.call w a) trivial).2
+      simp only [Correct, hl, hk] at hc
+      simp only [step, hl, isInCache] at hc ⊢
+      cases hr : (if (checkPrevious Cfg.fixed (exec Cfg.fixed sem init pre) w o cur named ic).1 = true then
+          dget a (checkPrevious Cfg.fixed (exec Cfg.fixed sem init pre) w o cur named ic).2.entries
+          else none) with
+      | some v =>
+        simp only [hr] at hc ⊢
+        rcases hc with hc | hc
+        · simp only [Out.value.injEq, and_true] at hc
+          subst hc
+          split at hr
+          · exact hr
+          · cases hr
+        · simp at hc
+      | none =>
+        simp only [hk]
+        exact JoblibModel.FilterArgs.dget_dset_self _ _ _
+    -- `mid`
+    obtain ⟨hs2, keep⟩ := quiet_exec (sem := sem) mid _ hi1 hs1 hmid
+    have hex : st = exec Cfg.fixed sem (step Cfg.fixed sem (exec Cfg.fixed sem init pre) (.call w a)).2 mid := by
+      show exec Cfg.fixed sem init (pre ++ .call w a :: mid) = _
+      rw [exec_append]; rfl
+    have hi2 : Inv sem st := by rw [hex]; exact inv_exec (sem := sem) mid _ hi1 (nd hmid)
+    have he2 : dget a st.entries = some (sem k a) := by rw [hex]; exact keep a _ hent
+    have hs2' : AllSrc k st := by rw [hex]; exact hs2
+    cases hl' : lookup st w' with
+    | none => rw [hl'] at hlive'; cases hlive'
+    | some p' =>
+      obtain ⟨o', cur', named', ic'⟩ := p'
+      have hk' : cur'.2 = k := hs2'.1 o' cur' named' (lookup_live hl')
+      have hc2 : st.code = .ok cur'.2 := by
+        rcases hs2'.2 with hm | ho
+        · rw [(hi2.missing hm).1] at he2; simp [dget] at he2
+        · rw [hk']; exact ho
+      exact call_hit hi2 hl' hc2 he2
 
-/-- The step-level fact behind it, from any state: stored code = the function's own source and the
-entry present ⇒ hit, nothing executed, nothing changed. -/
-theorem hit_when_code_unchanged (sem : Src → Nat → R) (st : State R) (o : Obj) (k : Src) (n : Bool)
-    (a : Nat) (r : R) (hl : dget o st.live = some (k, n)) (hc : st.code = some k)
+/-- The step-level fact behind it, from any state with the invariant: stored code = the current
+code's source and the entry present ⇒ hit, nothing executed, code and entries unchanged. -/
+theorem hit_when_code_unchanged (sem : Src → Nat → R) (st : State R) (hi : Inv sem st) (w : Nat)
+    (o : Obj) (cur : CodeId) (n : Bool) (ic : InfoCache) (a : Nat) (r : R)
+    (hl : lookup st w = some (o, cur, n, ic)) (hc : st.code = .ok cur.2)
     (he : dget a st.entries = some r) :
-    step .fixed sem st (.call o a) = (.value r false, st) :=
-  call_hit hl hc he
+    (step Cfg.fixed sem st (.call w a)).1 = .value r false ∧
+      (step Cfg.fixed sem st (.call w a)).2.entries = st.entries ∧
+      (step Cfg.fixed sem st (.call w a)).2.code = st.code :=
+  call_hit hi hl hc he
 
-/-! ## Non-vacuity: a history with two live versions, a code swap, a fresh process and a clear -/
+/-! ## Non-vacuity: a history with two live versions, swaps there and back, two wrappers of one
+function, truncated `func_code.py`, a fresh process and a clear -/
 
 /-- versions 1 and 2 of `f` return `(version, arg)` -/
 def semEx : Src → Nat → Nat × Nat := fun k a => (k, a)
 
 def histEx : List Op :=
   [.define 1 1 true, .call 1 7, .define 2 2 true, .call 2 7, .call 1 7, .check 2 7, .call 2 7,
-   .swap 1 2, .call 1 7, .fresh, .define 3 1 true, .call 3 7, .clearFn 3, .call 3 7]
+   .swap 1 (2, 2), .call 1 7, .swap 1 (1, 1), .call 1 7, .wrap 5 1, .call 5 7,
+   .damage .unreadable, .call 2 7, .call 2 7, .fresh, .define 3 1 true, .damage .other, .call 3 7,
+   .clearFn 3, .call 3 7]
 
-example : run .fixed semEx init histEx =
+example : run Cfg.fixed semEx init histEx =
     [.done, .value (1, 7) true, .done, .value (2, 7) true, .value (1, 7) true, .flag false,
-     .value (2, 7) true, .done, .value (2, 7) false, .done, .done, .value (1, 7) true, .done,
+     .value (2, 7) true, .done, .value (2, 7) false, .done, .value (1, 7) true, .done, .value (1, 7) false,
+     .done, .value (2, 7) true, .value (2, 7) false, .done, .done, .done, .value (1, 7) true, .done,
      .value (1, 7) true] := by decide
 
-example : ∀ op ∈ [Op.define 1 5 true, .call 1 0, .fresh, .define 2 5 true, .check 2 0], Quiet 5 op := by
+example : ∀ op ∈ histEx, NoDelete op := by decide
+
+example : ∀ op ∈ [Op.define 1 5 true, .call 1 0, .swap 1 (9, 5), .fresh, .define 2 5 true, .wrap 3 2,
+    .check 3 0], Quiet 5 op := by decide
+
+/-! ## F38 — `func_code_info` before the repair -/
+
+/-- F38: `f.__code__ = A.__code__; cf(0)`, `f.__code__ = B.__code__; cf(0)`,
+`f.__code__ = A.__code__; cf(0)` returns B's value the third time: `_func_code_id` keeps the first
+code object ever seen (A's), so after the swap back the cached source (B's, read at the second
+call) is not refreshed, matches the stored code and B's entry is served. -/
+theorem old_F38_counterexample :
+    run ⟨true, false⟩ semEx init
+        [.define 1 9 true, .swap 1 (100, 1), .call 1 0, .swap 1 (101, 2), .call 1 0,
+         .swap 1 (100, 1), .call 1 0] =
+      [.done, .done, .value (1, 0) true, .done, .value (2, 0) true, .done, .value (2, 0) false] := by
   decide
 
-/-! ## F10 — the pinned tree -/
+/-- The same through two wrappers of one function: wrapper 1 goes A, B, back to A; after a
+`Memory.clear()` it writes its STALE cached source (B's) into `func_code.py` while the function runs
+A's code and stores A's value; the function then gets B's code again and wrapper 2 (whose own cache
+is right) finds "its" source on disk and is served A's value. -/
+theorem old_F38_two_wrappers_counterexample :
+    run ⟨true, false⟩ semEx init
+        [.define 1 1 true, .wrap 2 1, .call 1 0, .swap 1 (101, 2), .call 1 0, .swap 1 (1, 1),
+         .clearAll, .call 1 0, .swap 1 (101, 2), .call 2 0] =
+      [.done, .done, .value (1, 0) true, .done, .value (2, 0) true, .done, .done, .value (1, 0) true,
+       .done, .value (1, 0) false] := by
+  decide
+
+theorem old_F38_value_from_own_version_false :
+    ¬ ∀ ops : List Op, (∀ op ∈ ops, NoDelete op) →
+        AllCorrect ⟨true, false⟩ semEx (init : State (Nat × Nat)) ops := by
+  intro h
+  exact absurd (h [.define 1 9 true, .swap 1 (100, 1), .call 1 0, .swap 1 (101, 2), .call 1 0,
+    .swap 1 (100, 1), .call 1 0] (by decide)) (by decide)
+
+/-- The repaired code on the two histories. -/
+theorem fixed_on_the_F38_witnesses :
+    run Cfg.fixed semEx init
+        [.define 1 9 true, .swap 1 (100, 1), .call 1 0, .swap 1 (101, 2), .call 1 0,
+         .swap 1 (100, 1), .call 1 0] =
+      [.done, .done, .value (1, 0) true, .done, .value (2, 0) true, .done, .value (1, 0) true] ∧
+    run Cfg.fixed semEx init
+        [.define 1 1 true, .wrap 2 1, .call 1 0, .swap 1 (101, 2), .call 1 0, .swap 1 (1, 1),
+         .clearAll, .call 1 0, .swap 1 (101, 2), .call 2 0] =
+      [.done, .done, .value (1, 0) true, .done, .value (2, 0) true, .done, .done, .value (1, 0) true,
+       .done, .value (2, 0) true] := by
+  decide
+
+/-! ## `func_code.py` deleted while entries remain (known finding) -/
+
+/-- Version 1 caches arguments 0 and 1; `func_code.py` is deleted; in a fresh process the EDITED
+function (version 2) is called with both: the first call takes the "no func_code.py" branch (writes
+the new source, recomputes), the second is then served version 1's value. -/
+theorem deleted_func_code_counterexample :
+    run Cfg.fixed semEx init
+        [.define 1 1 true, .call 1 0, .call 1 1, .damage .delete, .fresh, .define 2 2 true,
+         .call 2 0, .call 2 1] =
+      [.done, .value (1, 0) true, .value (1, 1) true, .done, .done, .done, .value (2, 0) true,
+       .value (1, 1) false] := by
+  decide
+
+/-- A truncated (unreadable or garbled) file in the same place is handled: everything is recomputed. -/
+theorem truncated_func_code_witness :
+    run Cfg.fixed semEx init
+        [.define 1 1 true, .call 1 0, .call 1 1, .damage .unreadable, .fresh, .define 2 2 true,
+         .call 2 0, .call 2 1] =
+      [.done, .value (1, 0) true, .value (1, 1) true, .done, .done, .done, .value (2, 0) true,
+       .value (2, 1) true] ∧
+    run Cfg.fixed semEx init
+        [.define 1 1 true, .call 1 0, .call 1 1, .damage .other, .fresh, .define 2 2 true,
+         .call 2 0, .call 2 1] =
+      [.done, .value (1, 0) true, .value (1, 1) true, .done, .done, .done, .value (2, 0) true,
+       .value (2, 1) true] := by
+  decide
+
+/-! ## F10 — the tree before fixes/F10-same-name-redefinition.diff -/
 
 /-- F10: `f` v1 is defined and cached, `f` v2 is defined under the same name and cached; the calls
-`c1(1), c2(1), c1(1)` return `(1,1), (2,1), (2,1)` on the pinned tree: the third call is answered
-by the `_FUNCTION_HASHES` shortcut with the entry version 2 stored. -/
+`c1(1), c2(1), c1(1)` return `(1,1), (2,1), (2,1)`: the third call is answered by the
+`_FUNCTION_HASHES` shortcut with the entry version 2 stored. -/
 theorem old_F10_counterexample :
-    run .old semEx init [.define 1 1 true, .define 2 2 true, .call 1 1, .call 2 1, .call 1 1] =
+    run ⟨false, true⟩ semEx init [.define 1 1 true, .define 2 2 true, .call 1 1, .call 2 1, .call 1 1] =
       [.done, .done, .value (1, 1) true, .value (2, 1) true, .value (2, 1) false] := by decide
 
-/-- The first theorem is false of the pinned tree. -/
+/-- The first theorem is false of that tree. -/
 theorem old_value_from_own_version_false :
-    ¬ ∀ ops : List Op, AllCorrect .old semEx (init : State (Nat × Nat)) ops := by
+    ¬ ∀ ops : List Op, (∀ op ∈ ops, NoDelete op) →
+        AllCorrect ⟨false, true⟩ semEx (init : State (Nat × Nat)) ops := by
   intro h
-  exact absurd (h [.define 1 1 true, .define 2 2 true, .call 1 1, .call 2 1, .call 1 1]) (by decide)
+  exact absurd (h [.define 1 1 true, .define 2 2 true, .call 1 1, .call 2 1, .call 1 1] (by decide))
+    (by decide)
 
-/-- A second shape of F10 (through `check_call_in_cache`): version 2 only CHECKS (which wipes the
-directory and stores its code); version 1's next call passes the shortcut, misses, and stores ITS
-value beside version 2's code; version 2 is then served version 1's value. -/
+/-- A second shape of F10 (through `check_call_in_cache`). -/
 theorem old_F10_check_counterexample :
-    run .old semEx init [.define 1 1 true, .define 2 2 true, .call 1 1, .check 2 1, .call 1 1, .call 2 1] =
+    run ⟨false, true⟩ semEx init
+        [.define 1 1 true, .define 2 2 true, .call 1 1, .check 2 1, .call 1 1, .call 2 1] =
       [.done, .done, .value (1, 1) true, .flag false, .value (1, 1) true, .value (1, 1) false] := by
   decide
 
 /-- The repaired code on the same two histories. -/
 theorem fixed_on_the_witnesses :
-    run .fixed semEx init [.define 1 1 true, .define 2 2 true, .call 1 1, .call 2 1, .call 1 1] =
+    run Cfg.fixed semEx init [.define 1 1 true, .define 2 2 true, .call 1 1, .call 2 1, .call 1 1] =
       [.done, .done, .value (1, 1) true, .value (2, 1) true, .value (1, 1) true] ∧
-    run .fixed semEx init [.define 1 1 true, .define 2 2 true, .call 1 1, .check 2 1, .call 1 1, .call 2 1] =
+    run Cfg.fixed semEx init
+        [.define 1 1 true, .define 2 2 true, .call 1 1, .check 2 1, .call 1 1, .call 2 1] =
       [.done, .done, .value (1, 1) true, .flag false, .value (1, 1) true, .value (2, 1) true] := by
   decide
 
